@@ -71,9 +71,9 @@ def run_tlc(module, cfg_text, name, workers=4, timeout=900, simulate=None, depth
     cfg = os.path.join(d, name + ".cfg")
     open(cfg, "w").write(cfg_text)
     out = os.path.join(d, "out.txt")
-    cmd = ["timeout", str(timeout), "java", "-XX:+UseParallelGC"] + java_opts.split()
-    if heap:
-        cmd.append("-Xmx" + heap)
+    cmd = ["timeout", str(timeout), "java", "-XX:+UseParallelGC", "-XX:ParallelGCThreads=2",
+           "-XX:TieredStopAtLevel=4"] + java_opts.split()
+    cmd.append("-Xmx" + (heap or "3g"))
     cmd += ["-cp", "/opt/veriftools/tla/tla2tools.jar:/opt/veriftools/tla/CommunityModules-deps.jar", "tlc2.TLC",
             "-workers", str(workers), "-metadir", os.path.join(d, "md"), "-cleanup", "-noGenerateSpecTE",
             "-config", cfg]
